@@ -31,6 +31,7 @@ type schedTask struct {
 	Horizon  int         `json:"horizon"`
 	MaxExec  int         `json:"max_exec"`
 	BudgetS  int         `json:"budget_s"`
+	NotAfter int64       `json:"not_after,omitempty"` // unix seconds: the scenario's overall deadline
 	Single   bool        `json:"single,omitempty"`
 }
 
@@ -55,6 +56,10 @@ func RunSched(r *Run, spec SchedSpec) *vsync.Stats {
 		t.Horizon = spec.Horizon
 		t.MaxExec = spec.MaxExec
 		t.BudgetS = spec.BudgetS
+		if spec.BudgetS > 0 {
+			// the budget is per subtree; the scenario as a whole gets three times that (subtrees run in parallel)
+			t.NotAfter = start.Add(time.Duration(3*spec.BudgetS) * time.Second).Unix()
+		}
 		b, _ := json.Marshal(t)
 		return b
 	}
